@@ -28,14 +28,26 @@ def main():
     out = {"pin": executorlib.__file__, "values": {}}
     ci, cf = os.path.join(cache, "interactive"), os.path.join(cache, "file")
     for kw in (dict(block_allocation=True, max_workers=1), dict(block_allocation=False, max_cores=1)):
-        with executorlib.Executor(backend="local", cache_directory=ci, **kw) as e:
-            out["values"]["small_%s" % kw["block_allocation"]] = e.submit(small, 1 + int(kw["block_allocation"])).result(timeout=120)
-            r = e.submit(big, 7 + int(kw["block_allocation"]), nbytes).result(timeout=120)
+        e = executorlib.Executor(backend="local", cache_directory=ci, **kw)
+        try:
+            out["values"]["small_%s" % kw["block_allocation"]] = e.submit(small, 1 + int(kw["block_allocation"])).result(timeout=60)
+            r = e.submit(big, 7 + int(kw["block_allocation"]), nbytes).result(timeout=60)
             out["values"]["big_%s" % kw["block_allocation"]] = [len(r), r == big(7 + int(kw["block_allocation"]), nbytes)]
-    with FileExecutor(cache_directory=cf, execute_function=execute_in_subprocess) as e:
+        except BaseException as ex:  # noqa
+            out["values"]["interactive_%s" % kw["block_allocation"]] = "EXC:" + type(ex).__name__
+        finally:
+            import threading
+
+            t = threading.Thread(target=lambda: e.shutdown(wait=True), daemon=True)
+            t.start()
+            t.join(20)
+    e = FileExecutor(cache_directory=cf, execute_function=execute_in_subprocess)
+    try:
         a = e.submit(small, 10)
         b = e.submit(add, a, 5)
-        out["values"]["file_dependent"] = b.result(timeout=120)
+        out["values"]["file_dependent"] = b.result(timeout=40)
+    except BaseException as ex:  # noqa  (a file mode that no longer works is for the other parts of the check to report)
+        out["values"]["file_dependent"] = "EXC:" + type(ex).__name__
     json.dump(out, open(outp, "w"))
     os._exit(0)
 
